@@ -1,5 +1,5 @@
 #!/usr/bin/env node
-// tools/db_export_x86.js <repo> <outdir>
+// tools/db_export_x86.js [<repo>] <outdir>        (repo defaults to $VERIF_REPO or /repo)
 //
 // Exports the x86 ISA database of the repository (db/isa_x86.json read through the repository's own reader db/x86.js)
 // into the digested form table used by spec/isa/X86Enc.tla and harness/x86sweep.cpp:
@@ -12,8 +12,9 @@
 "use strict";
 const fs = require("fs");
 const path = require("path");
-const repo = process.argv[2] || "/repo";
-const outdir = process.argv[3] || "/verif/out/C01";
+const args = process.argv.slice(2);
+const repo = args.length >= 2 ? args[0] : (process.env.VERIF_REPO || "/repo");
+const outdir = args.length >= 2 ? args[1] : (args[0] || "/verif/out/C01");
 const db = require(path.join(repo, "db"));
 const isa = new db.x86.ISA();
 isa.addData(JSON.parse(fs.readFileSync(path.join(repo, "db", "isa_x86.json"))));
